@@ -305,6 +305,7 @@ func longRunStream(ctx *Ctx, id, name string, e *Eco, rule string) int {
 			switch kind {
 			case "digits":
 				fam = []string{mk(rep("1", L-1)), mk(rep("1", L)), mk(rep("1", L+1)), mk(rep("1", L-1) + "2"), mk("5"), mk("1")}
+
 			case "letters-plus":
 				b := mk("0") + "+"
 				fam = []string{b + rep("a", L-1), b + rep("a", L), b + rep("a", L+1), b + rep("a", L) + "b", b + rep("a", L) + "c", mk("0"), b + "b"}
@@ -325,6 +326,41 @@ func longRunStream(ctx *Ctx, id, name string, e *Eco, rule string) int {
 	var devs []Violation
 	var devReqs []string
 	defer func() { classifyDevs(ctx, id, name, devs, devReqs) }()
+	// digit runs around 2^16 digits (where a 16-bit length field wraps): C10 and C11 say "as
+	// integers of any length", so the expected sign is the comparison of the integers themselves
+	// (math/big); the extracted reference is not asked (its numeral conversion is quadratic)
+	if id == "C10" || id == "C11" {
+		for _, L := range []int{65535, 65536, 65537} {
+			rep := func(c string, k int) string { return strings.Repeat(c, k) }
+			lasts := []string{rep("1", L-1), rep("1", L), rep("1", L-1) + "2", "0" + rep("1", L), "2" + rep("0", L-1), "5", "70000"}
+			var vals []any
+			var nums []*big.Int
+			var strs []string
+			for _, l := range lasts {
+				if pr := e.Parse(mk(l)); pr.OK {
+					b, _ := new(big.Int).SetString(l, 10)
+					vals, nums, strs = append(vals, pr.Val), append(nums, b), append(strs, mk(l))
+				}
+			}
+			for i := range vals {
+				for j := range vals {
+					got := cmpS(e, vals[i], vals[j])
+					want := nums[i].Cmp(nums[j])
+					res.Evaluations++
+					n++
+					if got != want {
+						short := func(s string) string {
+							if len(s) > 60 {
+								return fmt.Sprintf("%s...(%d bytes)...%s", s[:16], len(s), s[len(s)-8:])
+							}
+							return s
+						}
+						res.violateKey(Violation{Eco: name, Kind: "reference-order/long-run", Input: map[string]any{"a": short(strs[i]), "b": short(strs[j]), "a_last_component_digits": len(lasts[i]), "b_last_component_digits": len(lasts[j])}, Expected: fmt.Sprintf("%d (digit runs compare as integers of any length)", want), Actual: fmt.Sprint(got)}, "2^16-digits")
+					}
+				}
+			}
+		}
+	}
 	for _, fam := range groups {
 		var strs []string
 		var vals []any
